@@ -87,7 +87,31 @@ func (fs *FS) getFile(path string) (*file, error) {
 		return nil, err
 	}
 	f.runOnceFileRecord.record, err = results[0].Record, results[0].Err
-	return &file{fileData: &f}, err
+	return &file{fileData: &f}, fs.notDirErr(path, err)
+}
+
+// notDirErr refines a not-exist error for 'name': if the nearest existing ancestor of 'name' is not a directory,
+// the path runs through a file and the error is ErrNotDir, like in the os package.
+func (fs *FS) notDirErr(name string, err error) error {
+	if !errors.Is(err, hackpadfs.ErrNotExist) || name == "." {
+		return err
+	}
+	for dir := path.Dir(name); dir != "."; dir = path.Dir(dir) {
+		results, getErr := getFileRecords(fs.store, []string{dir})
+		if getErr != nil || len(results) != 1 {
+			return err
+		}
+		switch {
+		case results[0].Err == nil:
+			if !results[0].Record.Mode().IsDir() {
+				return hackpadfs.ErrNotDir
+			}
+			return err
+		case !errors.Is(results[0].Err, hackpadfs.ErrNotExist):
+			return err
+		}
+	}
+	return err
 }
 
 // setFile write the 'file' data to the store at 'path'. If 'file' is nil, the file is deleted.
